@@ -653,6 +653,8 @@ def expand(template_path, repo_src_dir, canary=False):
             sig += ' -> (%s: %s)' % (rname, ret)
         start_line = len(gen.lines) + 1
         for a in kv.get('attrs', '').split(';'):
+            if a and canary and a.startswith('verifier::rlimit'):
+                continue        # the canary twin asks for a proof of `false`: no extra resources for that
             if a:
                 gen.emit('    #[%s]' % a, {'fn': fname, 'kind': 'attr', 'tags': tags})
         gen.emit(sig, {'fn': fname, 'kind': 'sig', 'tags': tags})
